@@ -10,7 +10,10 @@ Y = 2000
 
 
 def run(ctx):
+    ctx.exhaustive = False
+    ctx.exhaustive_note = 'container listings on listed sample years / scenario calendars'
     from rules import shared
+    ctx.include('effect_inventory', shared.effect_inventory)   # no new process-wide mutable state (MIR statics inventory)
     ctx.include('month_records', shared.month_records)   # leap table, solstice anchor, month memo, memo cells (shared, cached per source hash)
     ctx.include('jd_tables', shared.jd_tables)           # civil date <-> day number per (year, month) (shared, cached per source hash)
     I = ctx.interp(fuel=80000000)
